@@ -12,6 +12,9 @@ Tie
   * correspondence `tokens`:   the Python tokenizer used by the oracle against Escape.tokenize.
   * correspondence `welcome`:  MapProxyApp.welcome_response against the generated Gen_exc_templates.welcome_response.
   * correspondence `host`:     Request.host / url_scheme / host_url against Escape.host / url_scheme / host_url.
+  * correspondence `url`:      Request.script_url / base_url / urllib.parse.quote against Escape.script_url / base_url / quote.
+  * probe `htmlpage` (deterministic): welcome page (paths '' and '/') and demo pages with hostile Host / X-Forwarded-* / script
+                               names WITHOUT marker; oracle = lxml element structure and token kinds equal to the benign page.
   * correspondence `capabilities`: capabilities documents of the whole application for hostile Host / X-Forwarded-* values
                                against `fill segs (escape_html host_url)` with the segments of the benign document.
   * correspondence `appdoc`:   XML exception documents produced by the WHOLE application on a malformed-request
@@ -1304,6 +1307,79 @@ def part_host(ctx):
         lambda i: descr[i])
 
 
+def part_url(ctx):
+    """Request.script_url / Request.base_url (urllib.parse.quote of SCRIPT_NAME and PATH_INFO appended to the host URL) against
+    Escape.script_url / Escape.base_url / Escape.quote on generated environs; None = the property raised."""
+    try:
+        from mapproxy.request.base import Request
+        from urllib.parse import quote as py_quote
+    except Exception as e:  # noqa
+        ctx.problem('harness', 'cannot import mapproxy.request.base: %r' % (e,))
+        return
+    rng = ctx.rng
+    names = [None, '', '/', '//', '/pre', '/pre/', '/pre//', '/a"b<c18m>', "/x'y", '/a&b', '/a b', '/%41', '/~user/_a.b-c', '/\xc3\xa4', '/\xff',
+             'noslash', '/€', '/\U0001f600/', '/\x00\x7f']
+    paths = [None, '', '/', '/service', '/wmts/1.0.0/WMTSCapabilities.xml', '/x y', '/%', '/"><c18m>', '/\xe4', '/tms/', '/a;b?c#d']
+    fixed = [({'HTTP_HOST': 'h"x'}, '/p"<\xe9/', None), ({'HTTP_HOST': 'h"x'}, None, '/<'), ({}, '/\ud800', '/'), ({}, '/', '/\udfff')]
+    terms, descr = [], []
+    for k in range(ctx.n(150, 2500)):
+        if k < len(fixed):
+            hdr, sn, pi = fixed[k]
+        else:
+            hdr = {}
+            r = rng.random()
+            if r < 0.4:
+                hdr['HTTP_HOST'] = rng.choice(HOST_FORMS + ['example.org', 'h"<c18m>', "h'&", 'h/'])
+            elif r < 0.6:
+                hdr['HTTP_X_FORWARDED_HOST'] = rng.choice(['proxy.example, other', 'p"<c18m>', ' p ', 'p//'])
+            if rng.random() < 0.3:
+                hdr['HTTP_X_FORWARDED_PROTO'] = rng.choice(['https', 'ftp', '"><c18m>', 'http/'])
+            sn = rng.choice(names) if rng.random() < 0.7 else gen_string(rng, maxlen=6)
+            pi = rng.choice(paths) if rng.random() < 0.7 else gen_string(rng, maxlen=6)
+        scheme, sname, sport = rng.choice(['http', 'https']), 'srv.example', rng.choice(['80', '443', '8080'])
+        env = {'wsgi.url_scheme': scheme, 'SERVER_NAME': sname, 'SERVER_PORT': sport}
+        env.update(hdr)
+        if sn is not None:
+            env['SCRIPT_NAME'] = sn
+        if pi is not None:
+            env['PATH_INFO'] = pi
+        rep = {'environ': dict((a, cps(b)) for a, b in env.items())}
+        lone = any(0xd800 <= ord(c) <= 0xdfff for c in (sn or '') + (pi or ''))
+        obs = {}
+        for attr in ('script_url', 'base_url'):
+            try:
+                v = getattr(Request(dict(env)), attr)
+                obs[attr] = v if isinstance(v, str) else None
+            except Exception as e:  # noqa
+                obs[attr] = None
+                if not any(0xd800 <= ord(c) <= 0xdfff for c in (sn or '') + ((pi or '') if attr == 'base_url' else '')):
+                    ctx.fail('url,raised', 'Request.%s raised %s: %s' % (attr, type(e).__name__, e), rep)
+        try:
+            qv = py_quote(sn or '')
+        except Exception:  # noqa
+            qv = None
+        if obs['base_url'] is not None and any(c in obs['base_url'] for c in '<>"\''):
+            ctx.fail('url,base_url-markup', 'Request.base_url contains markup characters: %r' % (obs['base_url'],), rep)
+        ctx.case(('url', tuple(sorted(env.items()))), any(c in (sn or '') + (pi or '') for c in SPECIAL + ['%', ' ']) or lone,
+                 {'part': 'url', 'environ': rep['environ'], 'base_url': obs['base_url']} if lone else None)
+        ctx.count('url:script_name=%s' % ('absent' if sn is None else 'surrogate' if lone else 'present'))
+        g = lambda key: olit(env.get(key), slist)  # noqa
+        terms.append('(%s, %s, %s, %s, %s, %s, (%s, %s), (%s, %s, %s))' % (
+            g('HTTP_X_FORWARDED_HOST'), g('HTTP_HOST'), g('HTTP_X_FORWARDED_PROTO'), slist(scheme), slist(sname), slist(sport),
+            olit(sn, slist), olit(pi, slist), olit(obs['script_url'], slist), olit(obs['base_url'], slist), olit(qv, slist)))
+        descr.append(dict(rep, implementation={'script_url': obs['script_url'], 'base_url': obs['base_url'], 'quote(SCRIPT_NAME)': qv}))
+    ctx.corr_check(
+        'url', 'Escape',
+        'option (list Z) * option (list Z) * option (list Z) * list Z * list Z * list Z * (option (list Z) * option (list Z)) * '
+        '(option (list Z) * option (list Z) * option (list Z))',
+        terms,
+        "fun c => let '(xfh, hh, xfp, sch, sn, sp, (scr, pth), (osu, obu, oq)) := c in "
+        "let e := {| x_fwd_host := xfh; http_host := hh; x_fwd_proto := xfp; wsgi_scheme := sch; server_name := sn; server_port := sp |} in "
+        "opt_eqb str_eqb (script_url e scr) osu && opt_eqb str_eqb (base_url e scr pth) obu && "
+        "opt_eqb str_eqb (quote (opt_default [] scr)) oq",
+        lambda i: descr[i])
+
+
 def part_app(ctx, skeletons):
     logging.disable(logging.CRITICAL)
     try:
@@ -1556,4 +1632,5 @@ def run(ctx):
         skeletons = part_handlers(ctx, table, codes, locs)
     part_other_handlers(ctx)
     part_host(ctx)
+    part_url(ctx)
     part_app(ctx, skeletons)
